@@ -1547,6 +1547,11 @@ impl Machine {
         'outer: loop {
             loop {
                 interrupt_counter += 1;
+                #[cfg(feature = "verif-hooks")]
+                if crate::verif::on_instruction() {
+                    INTERRUPT.store(true, atomic::Ordering::Relaxed);
+                    break;
+                }
                 if interrupt_counter.0 == 0 {
                     break;
                 }
@@ -1622,6 +1627,11 @@ impl Machine {
         'outer: loop {
             loop {
                 interrupt_counter += 1;
+                #[cfg(feature = "verif-hooks")]
+                if crate::verif::on_instruction() {
+                    INTERRUPT.store(true, atomic::Ordering::Relaxed);
+                    break;
+                }
                 if interrupt_counter.0 == 0 {
                     break;
                 }
